@@ -353,8 +353,11 @@ class Ctx:
             "wall_s": round(time.time() - self.t0, 1),
             "violations": nviol,
         }
-        os.makedirs(os.path.join(VERIF, "evidence"), exist_ok=True)
-        p = os.path.join(VERIF, "evidence", "%s.json" % self.prop)
+        # VERIF_EVIDENCE_DIR: used by tools/trymutant.sh / seeded_eval.py so that runs on deliberately broken
+        # scratch worktrees do not replace the evidence of the last run on the real tree
+        evdir = os.environ.get("VERIF_EVIDENCE_DIR") or os.path.join(VERIF, "evidence")
+        os.makedirs(evdir, exist_ok=True)
+        p = os.path.join(evdir, "%s.json" % self.prop)
         json.dump(ev, open(p + ".tmp", "w"), indent=1, default=str)
         os.replace(p + ".tmp", p)
 
